@@ -8,9 +8,9 @@ EXTENDS Fetcher, Json
 
 Loc(a)  == <<pc[a], kind[a], u[a], h[a], retry[a], nu[a], nh[a], att[a], ops[a], res[a]>>
 LocP(a) == <<pc'[a], kind'[a], u'[a], h'[a], retry'[a], nu'[a], nh'[a], att'[a], ops'[a], res'[a]>>
-CoreRec  == [e |-> <<mode, loc, valid, needAuth, headOK, envn>>, s |-> <<url, header, authed>>,
+CoreRec  == [e |-> <<mode, loc, valid, needAuth, headOK, envn, regDeny>>, s |-> <<url, header, authed>>,
              a |-> [a \in Actors |-> Loc(a)]]
-CoreRecP == [e |-> <<mode', loc', valid', needAuth', headOK', envn'>>, s |-> <<url', header', authed'>>,
+CoreRecP == [e |-> <<mode', loc', valid', needAuth', headOK', envn', regDeny'>>, s |-> <<url', header', authed'>>,
              a |-> [a \in Actors |-> LocP(a)]]
 
 GenInit == Init /\ PrintT("VINIT " \o ToJson(CoreRec))
